@@ -124,6 +124,24 @@ func unbound(fn *ssa.Function) *ssa.Function {
 	return fn
 }
 
+// unthunk: the method behind a method expression (T.m used as a function value is a synthetic thunk whose parameters are
+// the receiver and the method's parameters, handed straight on).
+func unthunk(fn *ssa.Function) *ssa.Function {
+	if fn == nil || !strings.HasSuffix(fn.Name(), "$thunk") {
+		return fn
+	}
+	for _, b := range fn.Blocks {
+		for _, in := range b.Instrs {
+			if call, ok := in.(*ssa.Call); ok {
+				if f := call.Call.StaticCallee(); f != nil && len(f.Params) == len(fn.Params) {
+					return f
+				}
+			}
+		}
+	}
+	return fn
+}
+
 // invokedMethod returns the interface method name for an invoke-mode call.
 func invokedMethod(cc *ssa.CallCommon) (recvType string, name string) {
 	if !cc.IsInvoke() {
